@@ -15,7 +15,12 @@ pub fn run(out: &mut Out, seed: u64, tier: &str) {
     let lib = library();
     let (mut n_hist, mut n_req, mut n_ng, mut n_opt, mut n_sing, mut n_near) = (0usize, 0usize, 0usize, 0usize, 0usize, 0usize);
     for r in 0..n_mols {
-        let m = if r < 8 { lib[r].clone() } else { random_mol(&mut rng) };
+        // (every sixth molecule is a cluster without a single bond: noble-gas atoms, separated ions, atoms pulled apart)
+        let m = if r < 8 { lib[r].clone() } else if r % 6 == 2 {
+            let zs: Vec<usize> = match rng.below(4) { 0 => vec![18, 18, 18], 1 => vec![2, 2], 2 => vec![11, 17, 11, 17], _ => vec![8, 1, 1] };
+            let xs = (0..zs.len()).map(|i| [3.9 * i as f64 + rng.range(-0.2, 0.2), 1.7 * (i % 2) as f64 + rng.range(-0.2, 0.2), rng.range(-0.3, 0.3) + 2.9 * (i / 2) as f64]).collect();
+            Mol { name: "unbonded-cluster".into(), zs, xs }
+        } else { random_mol(&mut rng) };
         if m.min_distance() < 0.5 || m.n() > 10 || m.n() < 1 { continue; }
         let mut mol = match catch(|| m.build()) { Some(x) => x, None => continue };
         for kind in ["uff", "rb"] {
